@@ -475,8 +475,15 @@ func singleCase(prop string, nb int, r *simctl.Rand) RunConfig {
 	if r.Intn(2) == 0 {
 		ch = ChunkSpec{Kind: []string{"rand", "geom", "onethenrest", "fixed"}[r.Intn(4)], K: 1 + r.Intn(9), Seed: r.Uint64()}
 	}
-	return RunConfig{Prop: prop, Workflow: WSingle, NumByte: nb, Workers: 1, Policy: simctl.Policy{Kind: "first"},
+	c := RunConfig{Prop: prop, Workflow: WSingle, NumByte: nb, Workers: 1, Policy: simctl.Policy{Kind: "first"},
 		Stream: st, Chunk: ch, Fault: FaultSpec{Kind: "none"}, Runners: RunnerSpec{Mode: "scripted"}, ReadYield: 1}
+	if r.Intn(2) == 0 {
+		// an earlier single-shot detection of another length on another source
+		pn := []int{16, 64, 1280, 4096, 8192, 16 + r.Intn(8000)}[r.Intn(6)]
+		pk := []string{"prf", "prf", "const"}[r.Intn(3)]
+		c.Prelude = []PreludeSpec{{Workflow: WSingle, NumByte: pn, Stream: StreamSpec{Kind: pk, Seed: r.Uint64(), Byte: r.Intn(256)}}}
+	}
+	return c
 }
 
 // GroupSize is the number of adjacent plan entries that share a comparison run
@@ -504,8 +511,13 @@ func planC14(prop string, thorough bool, r *simctl.Rand) []RunConfig {
 			W = workerChoices[r.Intn(len(workerChoices))]
 			pol = genPolicy(r, estSteps(w, W))
 		}
-		out = append(out, RunConfig{Prop: prop, Workflow: w, Workers: W, Policy: pol, Stream: st, Chunk: ChunkSpec{Kind: "full"},
-			Fault: FaultSpec{Kind: "none"}, Runners: RunnerSpec{Mode: "real"}, ReadYield: 1, Note: note})
+		c := RunConfig{Prop: prop, Workflow: w, Workers: W, Policy: pol, Stream: st, Chunk: ChunkSpec{Kind: "full"},
+			Fault: FaultSpec{Kind: "none"}, Runners: RunnerSpec{Mode: "real"}, ReadYield: 1, Note: note}
+		if wi.SampleBytes == 2500 && r.Intn(4) == 0 {
+			// the device was healthy during an earlier detection and is stuck now
+			c.Prelude = []PreludeSpec{{Workflow: w, Stream: StreamSpec{Kind: "prf", Seed: r.Uint64()}}}
+		}
+		out = append(out, c)
 	}
 	small := []string{WPeriod, WPeriodFast}
 	// all 256 constant bytes
@@ -621,6 +633,11 @@ func planC14(prop string, thorough bool, r *simctl.Rand) []RunConfig {
 			c := singleCase(prop, nb, r)
 			c.Stream = StreamSpec{Kind: "const", Byte: b}
 			c.Note = "single-stuck"
+			c.Prelude = nil
+			if r.Intn(2) == 0 {
+				// a larger request on a healthy source came first
+				c.Prelude = []PreludeSpec{{Workflow: WSingle, NumByte: []int{4096, 8192, 2 * nb, nb + 1 + r.Intn(4096)}[r.Intn(4)], Stream: StreamSpec{Kind: "prf", Seed: r.Uint64()}}}
+			}
 			out = append(out, c)
 		}
 	}
